@@ -108,7 +108,7 @@ theorem isBytes_packOctetNumber (n : Nat) : IsBytes (packOctetNumber n) := by
 
 /-! ### identifier octets -/
 
-theorem id_decode (cls : Nat) (cons : Bool) (low : Nat) (hc : cls < 4) (hl : low < 32) :
+theorem id_decode (cls : Nat) (cons : Bool) (low : Nat) (_ : cls < 4) (_ : low < 32) :
     (cls * 64 + (if cons then 32 else 0) + low) / 64 = cls ∧
     decide ((cls * 64 + (if cons then 32 else 0) + low) / 32 % 2 = 1) = cons ∧
     (cls * 64 + (if cons then 32 else 0) + low) % 32 = low := by
@@ -158,12 +158,15 @@ theorem readHeader_longForm' (t : Tag) (ds rest : Bytes) (hc : t.cls < 4)
     readHeader (packTag t ++ (128 + ds.length) :: ds ++ rest)
       = .ok ⟨t, (packTag t).length + 1 + ds.length, beNat ds⟩ := by
   rw [List.append_assoc, readHeader_packTag t _ hc hu]
-  have h128 : ¬ (128 + ds.length = 128) := by omega
+  have hne : ¬ ds = [] := by intro h; simp [h] at h1
   have hlt : 128 < 128 + ds.length := by omega
-  simp [readLen, h128, hlt, beVal_eq_beNat]
+  have hsh : ¬ (ds.length + rest.length < ds.length) := by omega
+  simp [readLen, hne, hlt, hsh, beVal_eq_beNat]
 
+/-- statement as used by `C07.header_long_form`; `_hb` and `_h2` are what makes the input a
+    byte string (length octet `128 + ds.length ≤ 255`) and are not needed by the model -/
 theorem readHeader_longForm (t : Tag) (ds rest : Bytes) (hc : t.cls < 4)
-    (hu : t.cls = 0 → t.num ≤ 36) (hb : IsBytes ds) (h1 : 1 ≤ ds.length) (h2 : ds.length ≤ 127) :
+    (hu : t.cls = 0 → t.num ≤ 36) (_hb : IsBytes ds) (h1 : 1 ≤ ds.length) (_h2 : ds.length ≤ 127) :
     readHeader (packTag t ++ (128 + ds.length) :: ds ++ rest)
       = .ok ⟨t, (packTag t).length + 1 + ds.length, beNat ds⟩ :=
   readHeader_longForm' t ds rest hc hu h1
@@ -188,10 +191,10 @@ theorem readHeader_packHeader' (t : Tag) (n : Nat) (rest : Bytes) (hc : t.cls < 
     have := readHeader_longForm' t (digits256 (n + 1) n).reverse rest hc hu hne
     rw [beNat_reverse, hv] at this
     rw [Nat.add_comm (digits256 (n + 1) n).reverse.length 128, this]
-    simp [Nat.add_assoc]
+    simp <;> omega
 
 theorem readHeader_packHeader (t : Tag) (n : Nat) (rest : Bytes) (hc : t.cls < 4)
-    (hu : t.cls = 0 → t.num ≤ 36) (hn : n < 256 ^ 126) :
+    (hu : t.cls = 0 → t.num ≤ 36) (_hn : n < 256 ^ 126) :
     readHeader (packHeader t n ++ rest) = .ok ⟨t, (packHeader t n).length, n⟩ :=
   readHeader_packHeader' t n rest hc hu
 
@@ -205,7 +208,7 @@ theorem readTLV_packTLV' (t : Tag) (c rest : Bytes) (hc : t.cls < 4)
   simp
 
 theorem readTLV_packTLV (t : Tag) (c rest : Bytes) (hc : t.cls < 4)
-    (hu : t.cls = 0 → t.num ≤ 36) (hn : c.length < 256 ^ 126) :
+    (hu : t.cls = 0 → t.num ≤ 36) (_hn : c.length < 256 ^ 126) :
     readTLV (some t) (packTLV t c ++ rest) = .ok (c, rest) :=
   readTLV_packTLV' t c rest hc hu
 
@@ -328,53 +331,62 @@ theorem readHeader_append (bs extra : Bytes) (h : Header) (hr : readHeader bs = 
   unfold readLen
   cases List.drop (1 + cnt) (o1 :: (rest ++ extra)) <;> rfl
 
-theorem readTLV_shorter (e : Option Tag) (bs c rest : Bytes)
-    (hr : readTLV e bs = .ok (c, rest)) :
-    rest.length + 2 ≤ bs.length ∧ c.length + rest.length + 2 ≤ bs.length := by
-  unfold readTLV at hr
+/-- the tag check of `_validate_tag` -/
+def tagBad (e : Option Tag) (h : Header) : Bool :=
+  match e with
+  | some t => decide (h.tag ≠ t)
+  | none => false
+
+theorem readTLV_eq (e : Option Tag) (bs : Bytes) :
+    readTLV e bs =
+      match readHeader bs with
+      | .error err => .error err
+      | .ok h =>
+        if tagBad e h then .error .valueError
+        else if (bs.drop h.hlen).length < h.len then .error .notEnough
+        else .ok ((bs.drop h.hlen).take h.len, (bs.drop h.hlen).drop h.len) := by
+  cases e <;> rfl
+
+/-- shape of a successful `readTLV` -/
+theorem readTLV_ok (e : Option Tag) (bs c rest : Bytes) (hr : readTLV e bs = .ok (c, rest)) :
+    ∃ h, readHeader bs = .ok h ∧ tagBad e h = false ∧
+      h.len ≤ (bs.drop h.hlen).length ∧
+      c = (bs.drop h.hlen).take h.len ∧ rest = (bs.drop h.hlen).drop h.len := by
+  rw [readTLV_eq] at hr
   split at hr
   · cases hr
   · rename_i h hh
-    have hb := readHeader_hlen_bounds bs h hh
-    split at hr
-    · cases hr
-    · split at hr
-      · cases hr
-      · rename_i hshort
-        simp only [List.length_drop] at hshort
+    by_cases hbad : tagBad e h = true
+    · rw [if_pos hbad] at hr; cases hr
+    · rw [if_neg hbad] at hr
+      by_cases hshort : (List.drop h.hlen bs).length < h.len
+      · rw [if_pos hshort] at hr; cases hr
+      · rw [if_neg hshort] at hr
         injection hr with hr
         injection hr with hc hrest
-        subst hc hrest
-        simp only [List.length_take, List.length_drop]
-        omega
+        exact ⟨h, hh, by simpa using hbad, by omega, hc.symm, hrest.symm⟩
+
+theorem readTLV_shorter (e : Option Tag) (bs c rest : Bytes)
+    (hr : readTLV e bs = .ok (c, rest)) :
+    rest.length + 2 ≤ bs.length ∧ c.length + rest.length + 2 ≤ bs.length := by
+  obtain ⟨h, hh, _, hle, rfl, rfl⟩ := readTLV_ok e bs c rest hr
+  have hb := readHeader_hlen_bounds bs h hh
+  simp only [List.length_drop] at hle
+  simp only [List.length_take, List.length_drop]
+  omega
 
 theorem readTLV_append (e : Option Tag) (bs c rest extra : Bytes)
     (hr : readTLV e bs = .ok (c, rest)) :
     readTLV e (bs ++ extra) = .ok (c, rest ++ extra) := by
-  unfold readTLV at hr ⊢
-  split at hr
-  · cases hr
-  · rename_i h hh
-    have hb := readHeader_hlen_bounds bs h hh
-    rw [readHeader_append bs extra h hh]
-    simp only
-    split at hr
-    · cases hr
-    · rename_i htag
-      simp only [htag]
-      split at hr
-      · cases hr
-      · rename_i hshort
-        have hle : h.len ≤ (bs.drop h.hlen).length := by omega
-        rw [List.drop_append_of_le_length hb.2]
-        have : ¬ (List.drop h.hlen bs ++ extra).length < h.len := by
-          simp only [List.length_append]; omega
-        simp only [this, ↓reduceIte, Bool.false_eq_true,
-          List.take_append_of_le_length hle, List.drop_append_of_le_length hle]
-        injection hr with hr
-        injection hr with hc hrest
-        subst hc hrest
-        rfl
+  obtain ⟨h, hh, htag, hle, rfl, rfl⟩ := readTLV_ok e bs c rest hr
+  have hb := readHeader_hlen_bounds bs h hh
+  rw [readTLV_eq, readHeader_append bs extra h hh]
+  simp only [htag, Bool.false_eq_true, ↓reduceIte]
+  rw [List.drop_append_of_le_length hb.2]
+  have : ¬ (List.drop h.hlen bs ++ extra).length < h.len := by
+    simp only [List.length_append]; omega
+  simp only [this, ↓reduceIte, List.take_append_of_le_length hle,
+    List.drop_append_of_le_length hle]
 
 /-! ### written TLVs are byte strings -/
 
